@@ -164,8 +164,14 @@ def generate(seed, tier):
                 ops.append("t.setRoot %d" % a)
             elif r < 0.67:
                 ops.append(rng.choice(["t.makeDirected", "t.makeUndirected"]))
-            elif r < 0.70:
+            elif r < 0.685:
                 ops.append("t.link %d %d" % (a, b))
+            elif r < 0.70:
+                # the other public mutators inherited from GlobalGraph
+                ops.append(rng.choice(["t.createNodeFromNode %d" % a, "t.createNodeOnEdge %d" % rng.randint(0, 8),
+                                       "t.createNodeFromEdge %d" % rng.randint(0, 8), "t.orientate"]))
+                if ops[-1] != "t.orientate":
+                    nn = min(nn + 2, 10)
             elif r < 0.73:
                 ops.append("t.unlink %d %d" % (a, b))
             elif r < 0.88:
